@@ -127,7 +127,9 @@ def render(n, edges, assign, num='seq', res='one', order=(0, 1, 2), noise='none'
         return [content(bond_tokens(s, a, b), SECS[s]) for a, b in pairs]
 
     if noise == 'comments':
-        out += ['; topology written for the check', '; [ bonds ]', ';', '; lengths in [nm], energies in [kJ]', '']
+        # comment lines may end in a backslash (a Windows path, an ASCII drawing of the molecule): still just comments
+        out += ['; topology written for the check', '; [ bonds ]', ';', '; lengths in [nm], energies in [kJ]', '',
+                '; source folder D:\\top\\']
     if noise == 'preproc':
         out += ['#include "forcefield.itp"', '#define FLEXIBLE']
     out.append(head('moleculetype'))
@@ -138,7 +140,7 @@ def render(n, edges, assign, num='seq', res='one', order=(0, 1, 2), noise='none'
         out.append('')
     out.append(head('atoms'))
     if noise == 'comments':
-        out.append(';   nr  type  resnr  residue  atom  cgnr  charge  mass')
+        out += [';   nr  type  resnr  residue  atom  cgnr  charge  mass', ';    /  \\']
         for i, ln in enumerate(atom_lines):
             out.append(ln)
             if i == 0:
@@ -192,7 +194,7 @@ def render(n, edges, assign, num='seq', res='one', order=(0, 1, 2), noise='none'
                     out.append(ln)
                     if i == 0:
                         pair = non_edge or (0, 0)
-                        out += [';%d %d 1' % (nr[pair[0]], nr[pair[1]]), '']
+                        out += [';%d %d 1' % (nr[pair[0]], nr[pair[1]]), '', ';  \\  /  \\']
                 out.append('')
             else:
                 out += lines
